@@ -8,6 +8,7 @@ rsync -a --exclude .git /repo/ "$D/"
 cd "$D"
 PYTHONPATH=$D/src timeout 300 /venv/bin/python "$sd/demo.py" >/dev/null 2>&1; echo "demo on clean: exit $?"
 if ! patch -p1 --quiet < "$sd/patch.diff"; then echo "PATCH DOES NOT APPLY"; exit 2; fi
+if grep -qE '^\+\+\+ .*\.(pyx|cc|re)' "$sd/patch.diff"; then VERIF_REPO=$D /venv/bin/python /verif/vt/rebuild_repo_ext.py 2>&1 | tail -1; fi
 PYTHONPATH=$D/src timeout 300 /venv/bin/python "$sd/demo.py" >/dev/null 2>&1; echo "demo with patch: exit $?"
 if [ "$4" != "--skip-tests" ]; then
   PYTHONPATH=$D/src /venv/bin/python -m pytest -q -p no:cacheprovider --timeout=900 --continue-on-collection-errors tests 2>&1 | tail -1
